@@ -613,3 +613,14 @@ func (c *Ctx) Control(rule string, matched bool, what string) {
 		c.Undecided("CONTROL", rule, token.NoPos, "positive control NOT matched ("+what+"): the rule no longer recognises the construct it looks for")
 	}
 }
+
+// subCtx makes a throw-away context over other packages (positive controls on the fixture).
+func (c *Ctx) subCtx(pkgs []*packages.Package) *Ctx {
+	s := newCtx(c.Prop, "control")
+	s.Fset = c.Fset
+	s.All = pkgs
+	for _, p := range pkgs {
+		s.byPath[p.PkgPath] = p
+	}
+	return s
+}
